@@ -190,8 +190,9 @@ theorem ctor_fails_at_shape_map_with_tsv :
     validInit a = true ∧ Ctor.ctor a = Guard.otherError "PluginException" := by decide
 
 /-- FULL STATEMENT "no invalid configuration is deferred": `validInit a → Ctor.deferred a = ok`.
-Proved outside `compressionWithoutFile` (finding F-C20-1). -/
-theorem not_deferred_partial (a : InitArgs) (hv : validInit a = true) (hz : compressionWithoutFile a = false) :
+Proved outside `compressionWithoutFile` (finding F-C20-1) and outside remote sources in a line format (finding F-C20-4). -/
+theorem not_deferred_partial (a : InitArgs) (hv : validInit a = true) (hz : compressionWithoutFile a = false)
+    (hr : ((a.url_graph_input || a.list_of_url_input) && Ctor.rdflibCannotRead a.input_format) = false) :
     Ctor.deferred a = Guard.ok := by
   have hl := validLeading_of_validInit a hv
   have hone := leading_oneSource a hl
@@ -205,13 +206,18 @@ theorem not_deferred_partial (a : InitArgs) (hv : validInit a = true) (hz : comp
   cases hs : a.compression_mode.isSome
   · have hnz : (a.compression_mode == some Gen.ZIP) = false := by
       cases hcm : a.compression_mode <;> simp_all
-    simp [hnz]
+    simp [hnz, hs, hr]
   · rw [hs] at hz hrem
     simp only [Bool.true_and] at hz hrem
     unfold remoteSource at hrem
     cases h1 : a.graph_file_input <;> cases h2 : a.graph_list_of_files_input <;>
       cases h3 : a.raw_graph <;> cases h4 : a.rdflib_graph <;> cases h5 : a.url_endpoint <;>
         cases h6 : a.url_graph_input <;> cases h7 : a.list_of_url_input <;> simp_all [Spec.count]
+
+/-- ¬ witness (F-C20-4): a remote source in TSV is accepted and rejected at the first call -/
+theorem deferred_fails_at_remote_tsv :
+    let a : InitArgs := { url_graph_input := true, all_classes_mode := true, input_format := "tsv_spo" }
+    validInit a = true ∧ Ctor.ctor a = Guard.ok ∧ Ctor.deferred a = Guard.valueError := by decide
 
 /-- ¬ witness (F-C20-1): raw graph + zip is accepted and fails at the first call -/
 theorem deferred_fails_at_raw_graph_zip :
